@@ -87,6 +87,7 @@ func heldAtMode(g *Graph, n *Node, mu string, exclusive bool) bool {
 
 func runC10(c *Check) {
 	p := c.Mod(ModSingle)
+	ruleNoBatchUseAfterCommit(c, p, "C10-R11", singlePkg)
 	c.Doc("C10-R1", "EO+GA: in AddBatch the success edge of the datastore Put precedes every write of the in-memory queue.")
 	c.Doc("C10-R2", "EO: no Put / queue write reaches the queue-full return; no AddBatch reaches the invalid-id or empty-batch returns of SubmitBatchTxs.")
 	c.Doc("C10-R3", "FS: the queue write is behind maxQueueSize <= 0 or len(queue) < maxQueueSize.")
@@ -1244,6 +1245,7 @@ func runC11(c *Check) {
 	rulePoppedBatchHandedOut(c, sp, "C11-R6")
 	ruleSubmissionWhole(c, sp, "C11-R8")
 	ruleBlockSaveAtomic(c, p, "C11-R9")
+	ruleNoBatchUseAfterCommit(c, p, "C11-R10", rootPath+"/block")
 	ruleBasedHandOffCompletes(c, "C11-R7")
 	c.MinInstances("C11-R6", 1)
 	c.MinInstances("C11-R1", 2)
